@@ -67,9 +67,14 @@ type ProbeCfg struct {
 	Flag bool   `toml:"flag" comment:"zsim probe flag"`
 	Num  int    `toml:"num"`
 	Text string `toml:"text"`
+	// a reference to a higher-scoped (global) configuration: the framework fills it in whenever it
+	// configures the lint, whether or not the lint's own section exists
+	BR *lint.CABFBaselineRequirementsConfig `toml:"-"`
 }
 
-func (c ProbeCfg) String() string { return fmt.Sprintf("flag=%v num=%d text=%q", c.Flag, c.Num, c.Text) }
+func (c ProbeCfg) String() string {
+	return fmt.Sprintf("flag=%v num=%d text=%q global=%v", c.Flag, c.Num, c.Text, c.BR != nil)
+}
 
 // ---- call log
 
